@@ -95,6 +95,35 @@ func (pl *ProcessList) EndQuery(ctx *Context) {
 	}
 }
 
+// EndQueryEarly: the same identity test written as an early return (the "equal" edge is the false edge of !=).
+func (pl *ProcessList) EndQueryEarly(ctx *Context) {
+	pl.mu.Lock()
+	defer pl.mu.Unlock()
+	id := ctx.Session.ID()
+	p := pl.procs[id]
+	if p == nil || !(p.QueryPid == ctx.Pid()) {
+		delete(pl.byQueryPid, ctx.Pid())
+		return
+	}
+	StatusVariables.IncrementGlobal("Threads_running", -1)
+	p.Kill()
+	p.Kill = nil
+	delete(pl.byQueryPid, p.QueryPid)
+	p.QueryPid = 0
+}
+
+// Touch is a by-pid entry point: the process is reached through byQueryPid[pid] only.
+func (pl *ProcessList) Touch(pid uint64) bool {
+	pl.mu.Lock()
+	defer pl.mu.Unlock()
+	id, ok := pl.byQueryPid[pid]
+	if !ok {
+		return false
+	}
+	p, ok := pl.procs[id]
+	return ok && p != nil
+}
+
 func (pl *ProcessList) Kill(id uint32) {
 	pl.mu.Lock()
 	defer pl.mu.Unlock()
